@@ -30,6 +30,7 @@ var registry = []*HarnessSpec{
 	{Prop: "C03", Name: "zzH03prefix", Pkg: pkgConfig, Tier: "quick", Bounds: "one static prefix stanza: any accepted IPv6 prefix, both lifetimes of every accepted shape"},
 	{Prop: "C03", Name: "zzH03route", Pkg: pkgConfig, Tier: "quick", Bounds: "one static route stanza: any accepted prefix, lifetime of every accepted shape, preference"},
 	{Prop: "C03", Name: "zzH03dns", Pkg: pkgConfig, Tier: "quick", Bounds: "one rdnss stanza (one symbolic server) or one dnssl stanza (one concrete name), lifetime of every accepted shape"},
+	{Prop: "C03", Name: "zzH03captive", Pkg: pkgConfig, Tier: "quick", Unwind: 1200, Bounds: "captive-portal URI of 15 lengths around the option-length boundaries (3..518 bytes, concrete content)"},
 	{Prop: "C03", Name: "zzH03misc", Pkg: pkgConfig, Tier: "quick", Bounds: "mtu any accepted value; source LLA absent or a symbolic Ethernet address; pref64 absent / default / any parsable prefix string"},
 	{Prop: "C01", Name: "zzH01a", Pkg: pkgConfig, Tier: "quick", Unwind: 200, Bounds: "one stanza of every kind parsed by the real parser; 1-2 interface addresses (one fully symbolic), one loopback route, MAC present/absent, forwarding, clock and epoch symbolic; RA built twice"},
 	{Prop: "C01", Name: "zzH14b", Pkg: pkgConfig, Tier: "quick", Params: map[string]int{"static": 2, "repeats": 3}, Bounds: "idempotence / purity for an rdnss stanza (:: plus 2 static servers) parsed by the real parser; RA built 3 times"},
